@@ -75,7 +75,7 @@ def configurations():
             # by the endpoint itself (TCPHiddenServiceEndpoint.system_tor -> txtorcon.connect)
             "str_eph", "str_key", "str_fs_localport", "str_single",
             # the caller hands over a TorConfig that is still bootstrapping (as an instance / in a fired Deferred)
-            "boot_eph", "boot_fs_d",
+            "boot_eph", "boot_fs_d", "boot_tor_second",
             # Tor already has an authenticated filesystem service configured (loaded into the TorConfig at bootstrap)
             "fs_beside_auth", "eph_beside_auth",
             # earlier on this TorConfig another endpoint with the same caller-held key tried to listen and Tor refused
@@ -189,6 +189,14 @@ class Run(object):
             self.tmp = tempfile.mkdtemp(prefix="verif-hs-")
             self.public = 22
             return tor.create_filesystem_onion_endpoint(22, self.tmp, version=3)
+        if cfg == "boot_tor_second":
+            # a Tor object that has no configuration yet (as txtorcon.connect() gives): the application creates two onion
+            # endpoints back to back, so both ask for the configuration while it is still loading; the second one listens
+            tor = txtorcon.Tor(r, self.proto)
+            tor.create_onion_endpoint(8081, version=3)
+            self.sim.pump()
+            self.config_d = None
+            return tor.create_onion_endpoint(80, version=3)
         if cfg in ("boot_eph", "boot_fs_d"):
             booting = TorConfig(self.proto)          # starts bootstrapping; the first query stays unanswered for now
             self.sim.pump()
@@ -262,10 +270,15 @@ class Run(object):
                     self.sim.pump()
             elif a == "ConfigReady" and self.cfg.startswith("boot_"):
                 # the configuration's bootstrap goes on (or Tor refuses its first query)
-                if self.fault == "config":
-                    self.sim.release(b"551 injected\r\n")
-                else:
-                    self.sim.release()
+                n = 0
+                while self.sim.held and self.sim.held[0] == "GETINFO config/names" and n < 4:
+                    # (every configuration that is being loaded gets its answer: overlapping requests for the
+                    # configuration of one Tor object may each have started a load of their own)
+                    n += 1
+                    if self.fault == "config":
+                        self.sim.release(b"551 injected\r\n")
+                    else:
+                        self.sim.release()
             elif a == "ConfigReady":
                 if self.config_d is not None:
                     if self.fault == "config":
